@@ -1319,32 +1319,51 @@ def D17_inherited_call_restored():
 
 
 def C13_x64_flag_restored():
+    """both x64 context managers, for every initial process-wide value, every active jax.enable_x64 override (none / False /
+    True), every requested value and both kinds of exit: the requested value is in force inside, and afterwards the
+    process-wide value and the override are what they were"""
+    import contextlib
     import jax
     from jax2onnx.converter.conversion_api import _force_jax_x64
     from jax2onnx.user_interface import _temporary_x64
+    scope = getattr(jax, "enable_x64", None)
+    if scope is None:
+        from jax.experimental import enable_x64 as scope
+    holder = getattr(jax.config, "_value_holders", {}).get("jax_enable_x64")
+    read_global = (lambda: bool(holder.get_global())) if holder is not None and hasattr(holder, "get_global") else None
 
     class Boom(Exception):
         pass
     start = bool(jax.config.jax_enable_x64)
+    n = 0
     try:
         for cm in (_force_jax_x64, _temporary_x64):
             for initial in (False, True):
-                for flag in (False, True):
-                    for body in ("ok", "raise"):
-                        jax.config.update("jax_enable_x64", initial)
-                        try:
-                            with cm(flag):
-                                if bool(jax.config.jax_enable_x64) != flag:
-                                    return False, f"{cm.__name__}({flag}) did not set the flag inside the context"
-                                if body == "raise":
-                                    raise Boom()
-                        except Boom:
-                            pass
-                        if bool(jax.config.jax_enable_x64) != initial:
-                            return False, f"{cm.__name__}({flag}) with initial={initial}, body={body}: flag is {bool(jax.config.jax_enable_x64)} afterwards"
+                for override in (None, False, True):
+                    for flag in (False, True):
+                        for body in ("ok", "raise"):
+                            jax.config.update("jax_enable_x64", initial)
+                            what = f"{cm.__name__}({flag}) with process-wide value {initial}, override {override}, body={body}"
+                            with (scope(override) if override is not None else contextlib.nullcontext()):
+                                before = bool(jax.config.jax_enable_x64)
+                                try:
+                                    with cm(flag):
+                                        if bool(jax.config.jax_enable_x64) != flag:
+                                            return False, f"{what}: the requested value is not in force inside the context"
+                                        if body == "raise":
+                                            raise Boom()
+                                except Boom:
+                                    pass
+                                if bool(jax.config.jax_enable_x64) != before:
+                                    return False, f"{what}: the flag reads {bool(jax.config.jax_enable_x64)} afterwards, {before} before"
+                                if read_global is not None and read_global() != initial:
+                                    return False, f"{what}: the process-wide value is {read_global()} afterwards"
+                            if bool(jax.config.jax_enable_x64) != initial:
+                                return False, f"{what}: after leaving the override the flag is {bool(jax.config.jax_enable_x64)}"
+                            n += 1
     finally:
         jax.config.update("jax_enable_x64", start)
-    return True, "flag restored in 16 cases"
+    return True, f"flag restored in {n} cases"
 
 
 # ---------------------------------------------------------------- C17 (graph level)
@@ -1481,6 +1500,368 @@ def D31_custom_name_collides_with_loop_body_value():
     return _wellformed(m)
 
 
+def _converter_only_primitives(jaxpr_text):
+    import re
+    return sorted(set(re.findall(r"\b(?:jax\.numpy|jax\.nn|jax\.lax|nnx|flax|equinox|eqx|linen|onnx_fn)[\w.]*\.[\w]+", jaxpr_text)))
+
+
+def C13_retrace_family():
+    """C13 (bounded): the converted callable itself behaves as before.  For 6 plain functions / lambdas (never traced before),
+    after to_onnx - succeeding, with symbolic and with concrete shapes, in single and double precision, and failing in the
+    lowering - jax.make_jaxpr(f), jax.jit(f) and jax.eval_shape(f) on the same function object give what a never-converted
+    twin of the function gives."""
+    jax, jnp = _jax()
+    import jax2onnx
+
+    def make(k):
+        # two distinct function objects with the same body: one is converted, the twin never is
+        if k == 0:
+            return (lambda a: jnp.tanh(a) * 2.0), (lambda a: jnp.tanh(a) * 2.0)
+        if k == 1:
+            return (lambda a: jnp.tile(a, (2, 1)) + 1.0), (lambda a: jnp.tile(a, (2, 1)) + 1.0)
+        if k == 2:
+            def f(a):
+                return jax.nn.softmax(a, axis=-1).sum(axis=0)
+
+            def g(a):
+                return jax.nn.softmax(a, axis=-1).sum(axis=0)
+            return f, g
+        if k == 3:
+            return (lambda a: jnp.where(a > 0, a, 0.1 * a).reshape((-1,))), (lambda a: jnp.where(a > 0, a, 0.1 * a).reshape((-1,)))
+        if k == 4:
+            return (lambda a: jnp.concatenate([a, a * 2.0], axis=0)), (lambda a: jnp.concatenate([a, a * 2.0], axis=0))
+        return (lambda a: jax.lax.fori_loop(0, 3, lambda i, c: c * 0.5 + 1.0, a)), (lambda a: jax.lax.fori_loop(0, 3, lambda i, c: c * 0.5 + 1.0, a))
+
+    x = jnp.asarray(np.asarray([[0.5, -1.0, 2.0], [1.5, 0.25, -0.75]], np.float32))
+    n = 0
+    for k in range(6):
+        for mode in ("concrete", "symbolic", "double", "failing"):
+            f, twin = make(k)
+            try:
+                if mode == "concrete":
+                    jax2onnx.to_onnx(f, [(2, 3)])
+                elif mode == "symbolic":
+                    jax2onnx.to_onnx(f, [("B", 3)])
+                elif mode == "double":
+                    jax2onnx.to_onnx(f, [(2, 3)], enable_double_precision=True)
+                else:
+                    try:
+                        jax2onnx.to_onnx(f, [(2, 3)], opset=1_000_000)      # fails after tracing (or is rejected up front)
+                    except Exception:
+                        pass
+            except Exception as e:
+                return None, f"program {k} [{mode}] does not convert here: {type(e).__name__}: {str(e)[:100]}"
+            what = f"program {k} after a {mode} conversion"
+            try:
+                jp, jp_twin = str(jax.make_jaxpr(f)(x)), str(jax.make_jaxpr(twin)(x))
+            except Exception as e:
+                return False, f"{what}: jax.make_jaxpr(f) raises {type(e).__name__}: {str(e)[:150]}"
+            if _converter_only_primitives(jp) != _converter_only_primitives(jp_twin) or jp.count("\n") != jp_twin.count("\n"):
+                return False, f"{what}: jax.make_jaxpr(f) differs from the jaxpr of a never-converted twin: {_converter_only_primitives(jp) or jp[:200]}"
+            try:
+                got = np.asarray(jax.jit(f)(x))
+            except Exception as e:
+                return False, f"{what}: jax.jit(f)(x) raises {type(e).__name__}: {str(e)[:150]}"
+            want = np.asarray(twin(x))
+            if got.shape != want.shape or got.dtype != want.dtype or not np.allclose(got, want, rtol=1e-6, atol=1e-6):
+                return False, f"{what}: jax.jit(f)(x) is {got.dtype}{got.shape}, eager twin gives {want.dtype}{want.shape}"
+            es, es_twin = jax.eval_shape(f, x), jax.eval_shape(twin, x)
+            if (es.shape, es.dtype) != (es_twin.shape, es_twin.dtype):
+                return False, f"{what}: jax.eval_shape(f) is {es}, twin {es_twin}"
+            n += 1
+    return True, f"{n} converted functions re-trace like their never-converted twins"
+
+
+def D36_jit_helper_keeps_working_after_conversion():
+    """C13: a jit-compiled helper used by the converted function must work afterwards (whether the conversion succeeded or raised)"""
+    jax, jnp = _jax()
+    import jax2onnx
+
+    @jax.jit
+    def inner(a):
+        return jnp.tanh(a) + 1.0
+    x = jnp.asarray(np.asarray([[0.5, -1.0, 2.0]], np.float32))
+    outcome = "succeeded"
+    try:
+        jax2onnx.to_onnx(lambda a: inner(a) * 2.0, [(1, 3)])
+    except Exception as e:
+        outcome = f"raised {type(e).__name__}"
+    try:
+        got = np.asarray(inner(x))
+    except Exception as e:
+        return False, f"after a conversion that {outcome}, calling the jit-compiled helper raises {type(e).__name__}: {str(e)[:160]}"
+    want = np.tanh(np.asarray(x)) + 1.0
+    if not np.allclose(got, want, rtol=1e-6, atol=1e-6):
+        return False, f"after a conversion that {outcome} the jit-compiled helper returns {got}"
+    return True, f"helper works after a conversion that {outcome}"
+
+
+def C19_function_target_kwargs_family():
+    """C19 (bounded): keyword arguments of @onnx_function targets (3 functions, 1 module) in the call forms the target accepts
+    eagerly - left default, explicit default, explicit None where the default is not None, other static values, one and two
+    call sites in a program.  Each export either raises (loud) or agrees with eager JAX in shape, type and value."""
+    jax, jnp = _jax()
+    import jax2onnx
+    import onnxruntime as ort
+    try:
+        from witnesses import _fnmods as F
+    except ImportError:
+        import _fnmods as F
+    aff = F.Affine()
+    forms = [
+        ("total(x)", lambda x: F.total(x)), ("total(x, axis=-1)", lambda x: F.total(x, axis=-1)), ("total(x, axis=None)", lambda x: F.total(x, axis=None)),
+        ("total(x, axis=0)", lambda x: F.total(x, axis=0)),
+        ("bounded(x)", lambda x: F.bounded(x)), ("bounded(x, hi=None)", lambda x: F.bounded(x, hi=None)), ("bounded(x, lo=None)", lambda x: F.bounded(x, lo=None)),
+        ("bounded(x, lo=-0.5, hi=0.5)", lambda x: F.bounded(x, lo=-0.5, hi=0.5)),
+        ("scaled(x)", lambda x: F.scaled(x)), ("scaled(x, scale=None)", lambda x: F.scaled(x, scale=None)), ("scaled(x, scale=3.0)", lambda x: F.scaled(x, scale=3.0)),
+        ("scaled(x, flip=True)", lambda x: F.scaled(x, flip=True)), ("scaled(x, scale=None, flip=False)", lambda x: F.scaled(x, scale=None, flip=False)),
+        ("Affine()(x)", lambda x: aff(x)), ("Affine()(x, shift=None)", lambda x: aff(x, shift=None)), ("Affine()(x, shift=0.25)", lambda x: aff(x, shift=0.25)),
+        ("Affine()(x, shift=None) + Affine()(x)", lambda x: aff(x, shift=None) + aff(x)),
+        ("total(x, axis=None) + total(x).sum()", lambda x: F.total(x, axis=None) + F.total(x).sum()),
+        ("bounded(x, hi=None) - bounded(x)", lambda x: F.bounded(x, hi=None) - F.bounded(x)),
+    ]
+    xv = np.asarray([[0.5, -1.0, 2.0], [1.5, 0.25, -0.75]], np.float32)
+    n = loud = 0
+    for what, fn in forms:
+        want = np.asarray(fn(jnp.asarray(xv)))
+        try:
+            m = jax2onnx.to_onnx(fn, [(2, 3)], model_name="c19kw")
+        except Exception:
+            loud += 1
+            continue
+        try:
+            so = ort.SessionOptions()
+            so.log_severity_level = 4
+            sess = ort.InferenceSession(m.SerializeToString(), so, providers=["CPUExecutionProvider"])
+            got = sess.run(None, {sess.get_inputs()[0].name: xv})[0]
+        except Exception as e:
+            return False, f"{what}: exported without an error but ONNX Runtime fails: {str(e)[:160]} ... {str(e)[-300:]}"
+        if got.shape != want.shape or not np.allclose(got, want, rtol=1e-5, atol=1e-6):
+            return False, f"{what}: exported model gives {got.dtype}{got.shape} {got.ravel()[:4]}, eager JAX {want.dtype}{want.shape} {want.ravel()[:4]}"
+        n += 1
+    if n < 10:
+        return None, f"only {n} call forms could be exported ({loud} raised)"
+    return True, f"{n} call forms agree with eager JAX ({loud} rejected loudly)"
+
+
+def C04_function_symbol_binding_family():
+    """C04 (bounded): run-time reads of dimension symbols inside @onnx_function bodies when one function is called at several
+    sites whose arguments correlate their symbols differently (f(a, a) then f(a, b), f(a, b) then f(a, a), f(a, b) then
+    f(b, a)), 2 functions x 3 orders, for 5 bindings of (T, S) including T != S."""
+    jax, jnp = _jax()
+    import jax2onnx
+    import onnxruntime as ort
+    try:
+        from witnesses import _fnmods as F
+    except ImportError:
+        import _fnmods as F
+    progs = []
+    for fname in ("outer_sum", "index_grid"):
+        # the target is looked up on its module at call time: the tracing-time substitute replaces the module attribute
+        call = (lambda nm: lambda *xs: getattr(F, nm)(*xs))(fname)
+        progs.append((f"{fname}(a, a) then {fname}(a, b)", (lambda f_: lambda a, b: (f_(a, a), f_(a, b)))(call)))
+        progs.append((f"{fname}(a, b) then {fname}(a, a)", (lambda f_: lambda a, b: (f_(a, b), f_(a, a)))(call)))
+        progs.append((f"{fname}(a, b) then {fname}(b, a)", (lambda f_: lambda a, b: (f_(a, b), f_(b, a)))(call)))
+    n = loud = 0
+    louds = []
+    for what, fn in progs:
+        try:
+            m = jax2onnx.to_onnx(fn, [("T", 3), ("S", 3)], model_name="c04fn")
+        except Exception as e:
+            loud += 1
+            louds.append(f"{what}: {type(e).__name__}: {str(e)[:80]}")
+            continue
+        if not m.functions:
+            return None, f"{what}: the export contains no function (the target was not intercepted)"
+        try:
+            so = ort.SessionOptions()
+            so.log_severity_level = 4
+            sess = ort.InferenceSession(m.SerializeToString(), so, providers=["CPUExecutionProvider"])
+        except Exception as e:
+            return False, f"{what}: ONNX Runtime does not load the model: {str(e)[:160]}"
+        names = [i.name for i in sess.get_inputs()]
+        for t, s_ in ((1, 3), (3, 1), (2, 2), (2, 5), (4, 3)):
+            a = (np.arange(t * 3, dtype=np.float32).reshape(t, 3) - 2.0) * 0.5
+            b = np.linspace(-1.0, 1.0, s_ * 3, dtype=np.float32).reshape(s_, 3)
+            want = [np.asarray(w_) for w_ in fn(jnp.asarray(a), jnp.asarray(b))]
+            try:
+                got = sess.run(None, dict(zip(names, [a, b])))
+            except Exception as e:
+                return False, f"{what} with T={t}, S={s_}: ONNX Runtime fails: {str(e)[:160]} ... {str(e)[-300:]}"
+            for g_, w_ in zip(got, want):
+                if g_.shape != w_.shape or not np.allclose(g_, w_, rtol=1e-5, atol=1e-5):
+                    return False, f"{what} with T={t}, S={s_}: model gives shape {g_.shape}, JAX {w_.shape}"
+            n += 1
+    if n < 10:
+        return None, f"only {n} evaluations possible ({loud} exports raised)"
+    return True, f"{n} evaluations agree with JAX ({loud} exports raised loudly: {louds})"
+
+
+def D38_one_label_for_different_data_dependent_extents():
+    """C08: two graph outputs whose run-time lengths differ must not declare the same symbolic dimension name"""
+    jax, jnp = _jax()
+    import jax2onnx
+    import onnxruntime as ort
+    fn = lambda a, b: (jnp.arange(a.shape[0] * a.shape[0]).astype(jnp.float32), jnp.arange(a.shape[0] * b.shape[0]).astype(jnp.float32))  # noqa: E731
+    try:
+        m = jax2onnx.to_onnx(fn, [("T", 3), ("S", 3)], model_name="d38")
+    except Exception as e:
+        return True, f"export raised {type(e).__name__} (loud)"
+    decl = [[(d.dim_param or d.dim_value) for d in o.type.tensor_type.shape.dim] for o in m.graph.output]
+    so = ort.SessionOptions()
+    so.log_severity_level = 4
+    so.enable_mem_pattern = False
+    sess = ort.InferenceSession(m.SerializeToString(), so, providers=["CPUExecutionProvider"])
+    try:
+        got = sess.run(None, dict(zip([i.name for i in sess.get_inputs()], [np.ones((3, 3), np.float32), np.ones((1, 3), np.float32)])))
+    except Exception as e:
+        return False, f"outputs declared {decl}; for T=3, S=1 ONNX Runtime fails: {str(e)[-230:]}"
+    if len(decl) == 2 and len(decl[0]) == 1 and len(decl[1]) == 1 and isinstance(decl[0][0], str) and decl[0][0] and decl[0][0] == decl[1][0] and got[0].shape != got[1].shape:
+        return False, f"outputs declare float[{decl[0][0]}] and float[{decl[1][0]}] - one name - but have {got[0].shape[0]} and {got[1].shape[0]} elements for T=3, S=1 (ONNX Runtime's buffer planner relies on equal names meaning equal sizes)"
+    return True, f"declared {decl}, run-time {[g.shape for g in got]}"
+
+
+def C09_builder_payload_family():
+    """C09 (bounded): IRBuilder.add_initializer_from_scalar / add_initializer_from_array store what the precision policy says,
+    in graph mode and in function mode (Constant nodes of function / control-flow bodies): with double precision enabled the
+    payload is the given value bit for bit (no narrowing); without it floating payloads are float32 and everything else is
+    unchanged.  12 values x 2 precision settings x 2 modes x 2 helpers."""
+    from jax2onnx.converter.ir_builder import IRBuilder
+    vals = [0.1, np.float64(1.0) / np.sqrt(6.0), np.float32(0.1), np.float16(0.1), np.asarray([0.1, 0.2, 1.0 / 3.0], np.float64), np.asarray([[0.1], [0.7]], np.float32),
+            np.log(np.float64(7.0)), 3, np.int64(-5), np.asarray([1, 2, 3], np.int32), True, np.asarray([0.3], np.float16)]
+    n = 0
+    for dbl in (False, True):
+        for fmode in (False, True):
+            for helper in ("add_initializer_from_scalar", "add_initializer_from_array"):
+                for k, v in enumerate(vals):
+                    b = IRBuilder(opset=21, enable_double_precision=dbl)
+                    b._function_mode = fmode
+                    src = np.asarray(v)
+                    out = getattr(b, helper)(f"c{k}", v if helper.endswith("scalar") else src)
+                    cv = out.const_value
+                    if cv is None:
+                        return False, f"{helper}({src.dtype} value) [double={dbl}, function_mode={fmode}]: the value carries no constant payload"
+                    got = np.asarray(cv.numpy())
+                    want = src.astype(np.float32) if (not dbl and np.issubdtype(src.dtype, np.floating)) else src
+                    what = f"{helper}({src.dtype} {src.ravel()[:2]}) [double={dbl}, function_mode={fmode}]"
+                    if got.dtype != want.dtype or got.shape != want.shape or not np.array_equal(got, want):
+                        return False, f"{what}: stored payload is {got.dtype} {got.ravel()[:2]!r}, the policy requires {want.dtype} {want.ravel()[:2]!r}"
+                    n += 1
+    return True, f"{n} payloads stored as the precision policy requires"
+
+
+def _scope_walk(model):
+    """(ok, why): every value is defined before it is read, in its own graph or an enclosing one; function bodies read only their inputs"""
+    def walk(g, outer, where):
+        defined = set(outer) | {i.name for i in g.input} | {i.name for i in g.initializer}
+        for n in g.node:
+            for i in n.input:
+                if i and i not in defined:
+                    return f"{where}: node {n.name or n.op_type} reads `{i}`, which no enclosing scope defines before it"
+            for a in n.attribute:
+                for sub in ([a.g] if a.type == 5 else list(a.graphs) if a.type == 10 else []):
+                    bad = walk(sub, defined, f"{where}/{n.name or n.op_type}.{a.name}")
+                    if bad:
+                        return bad
+            for o in n.output:
+                if o:
+                    defined.add(o)
+        for o in g.output:
+            if o.name and o.name not in defined:
+                return f"{where}: output `{o.name}` is not defined"
+        return None
+    bad = walk(model.graph, set(), "graph")
+    if bad:
+        return False, bad
+    for f in model.functions:
+        defined = set(f.input)
+        for n in f.node:
+            for i in n.input:
+                if i and i not in defined:
+                    return False, f"function {f.name}: node {n.name or n.op_type} reads `{i}`, which the body does not define before it"
+            for a in n.attribute:
+                for sub in ([a.g] if a.type == 5 else list(a.graphs) if a.type == 10 else []):
+                    bad = walk(sub, defined, f"function {f.name}/{n.op_type}.{a.name}")
+                    if bad:
+                        return False, bad
+            defined.update(o for o in n.output if o)
+    return True, "scopes ok"
+
+
+def C03_control_flow_scopes_family():
+    """C03 (bounded): programs in which a Loop/If/Scan body binds or captures a value carrying a symbolic dimension and the
+    enclosing scope (top level or an @onnx_function body) uses that dimension's run-time size afterwards; 4 constructs x 4
+    uses, exported with static and with symbolic shapes, plus 2 function-body programs.  Each exported model must pass the
+    ONNX checker (full), strict shape inference, a scope walk (no value read outside the scope that defines it), load in
+    ONNX Runtime, and agree with JAX for two bindings of the symbols."""
+    jax, jnp = _jax()
+    from jax import lax
+    import jax2onnx
+    try:
+        from witnesses import _fnmods as F
+    except ImportError:
+        import _fnmods as F
+
+    def k_cond(x, y):
+        return lax.cond(jnp.sum(x) > 0.0, lambda a: a.sum(), lambda a: a.mean() - 1.0, x)
+
+    def k_while_capture(x, y):
+        return lax.while_loop(lambda s: s[0] < 2, lambda s: (s[0] + 1, s[1] + y.sum()), (jnp.int32(0), jnp.float32(0.5)))[1] + x.sum()
+
+    def k_while_carry(x, y):
+        return lax.while_loop(lambda s: s[0] < 3, lambda s: (s[0] + 1, s[1] + y.sum(axis=0)), (jnp.int32(0), x))[1].sum()
+
+    def k_scan_carry(x, y):
+        return lax.scan(lambda c, row: (c + row.sum(), None), jnp.float32(0.0), x)[0] + y.sum()
+
+    uses = [("broadcast_to B", lambda s, x, y: jnp.broadcast_to(s, (x.shape[0],))),
+            ("zeros (B,2)", lambda s, x, y: jnp.zeros((x.shape[0], 2), dtype=x.dtype) + s),
+            ("arange C", lambda s, x, y: jnp.arange(y.shape[0]).astype(x.dtype) * s),
+            ("reshape -1", lambda s, x, y: (x * s).reshape((-1,)) + y.sum())]
+    progs = []
+    for kn, k in (("cond", k_cond), ("while capturing y", k_while_capture), ("while carrying x", k_while_carry), ("scan over rows", k_scan_carry)):
+        for un, u in uses:
+            progs.append((f"{kn} then {un}", (lambda k_, u_: lambda x, y: u_(k_(x, y), x, y))(k, u)))
+    progs.append(("function body: cond then zeros (B,2)", lambda x, y: (F.batch_cond_then_zeros(x), y * 2.0)))
+    progs.append(("function body: while then broadcast_to B", lambda x, y: (F.batch_while_then_broadcast(x), y * 2.0)))
+    bindings = [(4, 5), (2, 2)]
+    n = 0
+    loud = 0
+    for what, fn in progs:
+        for mode, spec in (("static", [(4, 3), (5, 3)]), ("symbolic", [("B", 3), ("C", 3)])):
+            try:
+                m = jax2onnx.to_onnx(fn, spec, model_name="c03scopes")
+            except Exception:
+                loud += 1
+                continue
+            for chk in (_wellformed, _scope_walk):
+                ok, why = chk(m)
+                if not ok:
+                    return False, f"{what} [{mode}]: {why}"
+            for (b, c) in (bindings if mode == "symbolic" else bindings[:1]):
+                xb = ((np.arange(b * 3, dtype=np.float32).reshape(b, 3) - 3.0) * 0.5)
+                yb = np.linspace(-1.0, 1.0, c * 3, dtype=np.float32).reshape(c, 3)
+                try:
+                    import onnxruntime as ort
+                    so = ort.SessionOptions()
+                    so.log_severity_level = 4
+                    sess = ort.InferenceSession(m.SerializeToString(), so, providers=["CPUExecutionProvider"])
+                    got = sess.run(None, dict(zip([i.name for i in sess.get_inputs()], [xb, yb])))
+                except Exception as e:
+                    return False, f"{what} [{mode}] B={b} C={c}: ONNX Runtime fails: {str(e)[:200]}"
+                want = fn(jnp.asarray(xb), jnp.asarray(yb))
+                want = [np.asarray(t) for t in (want if isinstance(want, tuple) else (want,))]
+                if len(got) != len(want):
+                    return False, f"{what} [{mode}]: {len(got)} outputs, JAX has {len(want)}"
+                for g_, w_ in zip(got, want):
+                    if g_.shape != w_.shape or not np.allclose(g_, w_, rtol=1e-5, atol=1e-5):
+                        return False, f"{what} [{mode}] B={b} C={c}: ONNX {g_.shape} {g_.ravel()[:4]} vs JAX {w_.shape} {w_.ravel()[:4]}"
+                n += 1
+    if n < 20:
+        return None, f"only {n} evaluations were possible ({loud} exports raised)"
+    return True, f"{n} evaluations of control-flow programs well formed and equal to JAX ({loud} exports raised loudly)"
+
+
 ALL = {
     "C18_nan_vs_finite": C18_nan_vs_finite, "C18_inf_vs_finite": C18_inf_vs_finite, "C18_shape_mismatch": C18_shape_mismatch,
     "C18_count_mismatch": C18_count_mismatch, "C18_beyond_tolerance": C18_beyond_tolerance, "C18_feed_construction_family": C18_feed_construction_family,
@@ -1494,6 +1875,12 @@ ALL = {
     "D34": D34_tensorscatter_mode_at_opset_24,
     "D35": D35_float32_constant_next_to_a_float32_cast_under_double_precision,
     "D31": D31_custom_name_collides_with_loop_body_value,
+    "C03_control_flow_scopes_family": C03_control_flow_scopes_family,
+    "C19_function_target_kwargs_family": C19_function_target_kwargs_family,
+    "C04_function_symbol_binding_family": C04_function_symbol_binding_family,
+    "D38": D38_one_label_for_different_data_dependent_extents,
+    "C09_builder_payload_family": C09_builder_payload_family,
+    "C13_retrace_family": C13_retrace_family, "D36": D36_jit_helper_keeps_working_after_conversion,
     "C13_rebinding_between_conversions": C13_rebinding_between_conversions,
     "D1": D1_max_nonscalar_side_operand,
     "D2": D2_reshape_max_nonscalar,
